@@ -275,6 +275,16 @@ class World:
         self.u = HTable([('j', int)], list(UROWS), name='u')
         self.conn.tables['t'] = self.t
         self.conn.tables['u'] = self.u
+        # a user table whose rows hold PERSISTENT aggregate-able objects (the ledger tables build theirs on the fly):
+        # an aggregator that adopts or mutates a value of its first row changes the source data
+        from beancount.core import inventory, position
+        self.w = HTable([('k', str), ('inv', inventory.Inventory), ('pos', position.Position)],
+                        [('a', inventory.from_string('1 USD'), position.from_string('2 HOOL {10 USD}')),
+                         ('a', inventory.from_string('2 USD, 1 HOOL {5 USD}'), position.from_string('1 HOOL {10 USD}')),
+                         ('b', inventory.from_string('3 EUR'), position.from_string('4 EUR')),
+                         ('b', None, None),
+                         ('b', inventory.from_string('-3 EUR'), position.from_string('1 USD'))], name='w')
+        self.conn.tables['w'] = self.w
         self.entries = entries
         self.cursor2 = self.conn.cursor()
         id_, k, v = col('id'), col('k'), col('v')
@@ -294,6 +304,8 @@ class World:
         self.PRINTQ = fresh_parse('PRINT FROM year = 2019 AND month = 1')
         self.ENTRIES = fresh_parse("SELECT type, date FROM #entries WHERE type != 'transaction' AND type != 'open' ORDER BY date, type")
         self.SUBST = select([(F('subst', C('b'), C('X'), k), 's'), (F('upper', k), 'u')], from_='t')
+        self.SUMINV = select([(k, None), (F('sum', col('inv')), 's'), (F('sum', col('pos')), 'p'), (F('first', col('inv')), 'f'), (F('last', col('inv')), 'l')],
+                             from_='w', group_by=A.GroupBy([k], None))
 
     def events(self):
         c = self.conn
@@ -319,6 +331,7 @@ class World:
             ('SHELLRUN', lambda: self._shellrun()),
             ('TEXTQ', lambda: c.execute(SHELL_QUERY_TEXT)),
             ('ENTRIES', lambda: c.execute(self.ENTRIES)),
+            ('SUMINV', lambda: c.execute(self.SUMINV)),
         ]
 
     def _shellrun(self):
@@ -356,7 +369,7 @@ class World:
 
     def snapshot(self):
         from beancount.core.compare import hash_entry
-        return (repr(self.t.rows), repr(self.u.rows), len(self.entries), tuple(hash_entry(e) for e in self.entries),
+        return (repr(self.t.rows), repr(self.u.rows), repr(self.w.rows), len(self.entries), tuple(hash_entry(e) for e in self.entries),
                 tuple(id(e) for e in self.entries))
 
 
